@@ -1,7 +1,7 @@
 #!/bin/bash
 # usage: tools/confirm_seed.sh <prop-id> <n>  — confirm a seeded mutation in its scratch worktree:
 #  with the change: builds, the 61 pinned tests pass, the demo FAILS; without it: the demo PASSES.
-id="$1"; n="$2"; wt=/tmp/seed_$id; log=/verif/.cache/seedtests/confirm-$id-$n.log
+id="$1"; n="$2"; wt=${SEEDROOT:-/tmp/seed}_$id; log=/verif/.cache/seedtests/confirm${SEEDTAG:-}-$id-$n.log
 cd $wt || exit 9
 export CARGO_NET_OFFLINE=true
 git checkout -q -- . ; : > $log
